@@ -209,21 +209,35 @@ def translate():
     fb = re.sub(r"\s+", " ", between(src, r"fn format_block\(&mut self, block: &Block\)\s*\{", r"\n    fn format_expression", "format_block")).strip()
     arm = re.search(r"Token::Braces \{ block, \.\. \}( \| Token::Config\(block\))? => \{(.*?)\}\s*Token::Config", re.sub(r"\s+", " ", src + " Token::Config"))
     old_head = "match self.options.braces.position { BracePosition::SameLine => self.push(&block.lparen.data).push(\"\\n\"), BracePosition::NewLine => self.push(\"\\n\").push(&block.lparen.data).push(\"\\n\"), };"
-    new_head = ("let mut on_new_line = false; if let Some(t) = block.lparen.trivia.as_ref() { for triv in &t.data { match triv { "
-                "Trivia::CStyle(comment) => { self.push_type(ChunkType::Comment, comment); on_new_line = false; } "
-                "Trivia::CppStyle(comment) => { self.push_type(ChunkType::Comment, comment).push(\"\\n\"); on_new_line = true; } "
-                "Trivia::Whitespace(_) | Trivia::NewLine => (), } } } self.format_block_without_lparen_trivia(block, on_new_line); } "
-                "fn format_block_without_lparen_trivia(&mut self, block: &Block, on_new_line: bool) { match self.options.braces.position { "
-                "BracePosition::SameLine => self.push(&block.lparen.data).push(\"\\n\"), BracePosition::NewLine => { if !on_new_line { self.push(\"\\n\"); } "
+    new_head = ("if let Some(t) = block.lparen.trivia.as_ref() { for triv in &t.data { match triv { "
+                "Trivia::CStyle(comment) => { self.push_type(ChunkType::Comment, comment); } "
+                "Trivia::CppStyle(comment) => { self.push_type(ChunkType::Comment, comment).push(\"\\n\"); } "
+                "Trivia::Whitespace(_) | Trivia::NewLine => (), } } } self.format_block_without_lparen_trivia(block); } "
+                "fn format_block_without_lparen_trivia(&mut self, block: &Block) { match self.options.braces.position { "
+                "BracePosition::SameLine => self.push(&block.lparen.data).push(\"\\n\"), BracePosition::NewLine => { "
+                "if self.chunks.last().map(|c| c.str != \"\\n\").unwrap_or(true) { self.push(\"\\n\"); } "
                 "self.push(&block.lparen.data).push(\"\\n\") } };")
     flat_src = re.sub(r"\s+", " ", src)
     if fb.startswith(old_head) and "Token::Braces { block, .. } | Token::Config(block) => { self.format_block(block); }" in flat_src:
         lbrace_trivia = False
-    elif fb.startswith(new_head) and ("Token::Braces { block, .. } => { self.format_block_without_lparen_trivia(block, false); } "
+    elif fb.startswith(new_head) and ("Token::Braces { block, .. } => { self.format_block_without_lparen_trivia(block); } "
                                       "Token::Config(block) => { self.format_block(block); }") in flat_src:
         lbrace_trivia = True
     else:
         raise ShapeError("format_block / the Braces arm have an unrecognised shape: %r" % fb[:200])
+
+    # ---- interpolated strings: is the trivia in front of a path inside `{ }` emitted?
+    isf = re.sub(r"\s+", " ", between(src, r"impl Formattable for &InterpolatedString\s*\{", r"\n\}", "Formattable for &InterpolatedString")).strip()
+    is_old = ("fn format(&self, formatter: &mut CodeFormatter) { formatter.fmt(&self.lquote); for item in &self.items { match item { "
+              "InterpolatedStringItem::String(s) => { formatter.push(s); } InterpolatedStringItem::IdentifierPath(path) => { "
+              "formatter.push('{').push(&path.data).push('}'); } } } formatter.push(\"\\\"\"); }")
+    is_new = is_old.replace("formatter.push('{').push(&path.data).push('}');", "formatter.push('{').fmt(path).push('}');")
+    if isf == is_old:
+        interp_trivia = False
+    elif isf == is_new:
+        interp_trivia = True
+    else:
+        raise ShapeError("Formattable for &InterpolatedString changed: %r" % isf[:300])
 
     out = ["(* GENERATED by translate/t_fmt.py from mos-core/src/formatting/mod.rs and parser/ast.rs. DO NOT EDIT. *)",
            "From Coq Require Import Bool.",
@@ -254,6 +268,8 @@ def translate():
             "Definition separates_same_line_statements : bool := %s." % ("true" if separates else "false"),
             "(* format_block emits the comments in front of the `{` of a directive / label / import / `.define` block *)",
             "Definition emits_lbrace_trivia : bool := %s." % ("true" if lbrace_trivia else "false"),
+            "(* the trivia in front of an identifier path inside the braces of an interpolated string is emitted *)",
+            "Definition emits_interpolation_trivia : bool := %s." % ("true" if interp_trivia else "false"),
             "(* the trivia in front of a specific import argument (its Located wrapper) is emitted *)",
             "Definition emits_import_arg_trivia : bool := %s." % ("true" if import_arg_trivia else "false"),
             "",
@@ -269,7 +285,7 @@ def translate():
     fp = write_if_changed("FmtRules.v", "\n".join(out) + "\n")
     return {"file": "Gen/FmtRules.v", "fingerprint": fp, "kinds": len(variants), "rule_arms": len(arms) + 1, "defaults": d,
             "separates_same_line_statements": separates, "emits_import_arg_trivia": import_arg_trivia,
-            "emits_lbrace_trivia": lbrace_trivia}
+            "emits_lbrace_trivia": lbrace_trivia, "emits_interpolation_trivia": interp_trivia}
 
 
 if __name__ == "__main__":
